@@ -51,6 +51,11 @@ type Config struct {
 	// CheckValueUse enables the companion rule for a site: value results must not be used while the error is
 	// unexamined or known non-nil.
 	CheckValueUse func(s *Site) bool
+	// SinkNoMention: a sink call handles the error even when it does not mention the variable (e.g. os.Exit(1)).
+	SinkNoMention bool
+	// NoReturnOK, when set, says whether ending the path in this never-returning call is an acceptable way to leave with a
+	// pending/non-nil error (e.g. false for os.Exit(0)).
+	NoReturnOK func(call *ast.CallExpr) bool
 	// NoResultFunc: the enclosing function has no error result (e.g. ServeHTTP): reaching any exit while pending/nonnil
 	// is a violation unless handled by a sink.
 	NoResultFunc bool
@@ -632,6 +637,12 @@ func (a *analysis) track(s *Site) {
 			// function end (fall off) or no-return call
 			if b.Live && st&(stP|stN) != 0 && !endsInNoReturn(a.info, b) {
 				report("falls-off", a.u.body().Rbrace, "function end reached while the error is "+stName(st)+" and has not been propagated or handled")
+			} else if b.Live && st&(stP|stN) != 0 && a.conf.NoReturnOK != nil {
+				if es, ok := b.Nodes[len(b.Nodes)-1].(*ast.ExprStmt); ok {
+					if call, ok := es.X.(*ast.CallExpr); ok && !a.conf.NoReturnOK(call) {
+						report("swallowed", call.Pos(), "path ends in a never-returning call that does not signal failure while the error is "+stName(st))
+					}
+				}
 			}
 			return
 		}
@@ -718,7 +729,7 @@ func (a *analysis) sinkIn(n ast.Node, s *Site) bool {
 			return false
 		}
 		if call, ok := m.(*ast.CallExpr); ok {
-			if a.conf.Sink(call, typeutil.Callee(a.info, call)) && mentions(a.info, call, s.Var) {
+			if a.conf.Sink(call, typeutil.Callee(a.info, call)) && (a.conf.SinkNoMention || mentions(a.info, call, s.Var)) {
 				found = true
 			}
 		}
